@@ -3,7 +3,7 @@
 C=$1; P=$2; T=${3:-quick}
 cd /repo && git diff --quiet || { echo "repo dirty"; exit 2; }
 git -C /repo apply "$P" || { echo "patch does not apply to /repo"; exit 2; }
-cd /verif && ./check $C --tier $T > /verif/work/mut-$C.log 2>&1; RC=$?
+cd /verif && VERIF_EVIDENCE_TO_WORK=1 ./check $C --tier $T > /verif/work/mut-$C.log 2>&1; RC=$?
 git -C /repo checkout -- .
 grep -E "VIOLATION|KNOWN-FINDING|TOOL-ERROR|\[done\]" /verif/work/mut-$C.log | cut -c1-200 | head -6
 echo "check exit=$RC"
